@@ -240,6 +240,7 @@ func main() {
 		steps := 8 + g.Intn(23)
 		// one generated history, replayed identically on both state kinds
 		hg := gen.New(e.BatchSeed()*7919 + int64(h))
+		hg.Lookalikes = h%2 == 1
 		var hist []op
 		for s := 0; s < steps; s++ {
 			o := op{Loc: "child"}
